@@ -7,11 +7,13 @@ package lvl
 
 import (
 	"bytes"
+	"crypto/sha256"
 	"encoding/json"
 	"fmt"
 	"os"
 	"path/filepath"
 	"sort"
+	"strings"
 	"sync"
 	"testing"
 
@@ -39,13 +41,69 @@ type lvCase struct {
 	Absent   []vlib.Str `json:"absent"`
 	Ops      []lvOp     `json:"ops"`
 	VerBase  uint64     `json:"version_base"` // every version is offset by this (timestamps far from zero)
+	Bulk     bool       `json:"bulk,omitempty"`
+}
+
+// A value written as "\x02bulk:<n>:<token>" in a case stands for the token followed by n
+// pseudo-random (incompressible) bytes: the multi-MiB size class without multi-MiB case files.
+func expandVal(v vlib.Str) []byte {
+	s := string(v)
+	if !strings.HasPrefix(s, "\x02bulk:") {
+		return []byte(s)
+	}
+	var n int
+	var tok string
+	if _, err := fmt.Sscanf(s[len("\x02bulk:"):], "%d:%s", &n, &tok); err != nil {
+		return []byte(s)
+	}
+	out := make([]byte, 0, len(tok)+n)
+	out = append(out, tok...)
+	x := uint64(len(tok))*0x9E3779B97F4A7C15 + 1
+	for _, c := range []byte(tok) {
+		x = (x ^ uint64(c)) * 0x100000001B3
+	}
+	for i := 0; i < n; i++ {
+		x ^= x << 13
+		x ^= x >> 7
+		x ^= x << 17
+		out = append(out, byte(x>>24))
+	}
+	return out
+}
+
+// canonVal: values above 64 KiB are compared by length and digest.
+func canonVal(b []byte) string {
+	if len(b) <= 1<<16 {
+		return string(b)
+	}
+	h := sha256.Sum256(b)
+	return fmt.Sprintf("\x01len=%d sha256=%x", len(b), h[:12])
+}
+
+var canonCache sync.Map // bulk notation -> canonical form
+
+// canonBatch: the reference form of a batch (what the tables must hold, canonically).
+func canonBatch(b []vlib.E) []vlib.E {
+	out := make([]vlib.E, len(b))
+	for i, e := range b {
+		out[i] = e
+		if strings.HasPrefix(string(e.Val), "\x02bulk:") {
+			c, ok := canonCache.Load(string(e.Val))
+			if !ok {
+				c = canonVal(expandVal(e.Val))
+				canonCache.Store(string(e.Val), c)
+			}
+			out[i].Val = vlib.Str(c.(string))
+		}
+	}
+	return out
 }
 
 func toEntries(b []vlib.E) []types.Entry {
 	s := vlib.SortedV(b)
 	out := make([]types.Entry, len(s))
 	for i, e := range s {
-		out[i] = types.Entry{Key: e.VK(), Value: []byte(e.Val), Tombstone: e.Tomb, Version: int64(e.Ts)}
+		out[i] = types.Entry{Key: e.VK(), Value: expandVal(e.Val), Tombstone: e.Tomb, Version: int64(e.Ts)}
 	}
 	return out
 }
@@ -83,6 +141,20 @@ func genLvCase(t *rapid.T, withCompaction bool) lvCase {
 	hi := c.VerBase // versions of later batches are >= versions of earlier ones
 	nflush := 0
 	nops := rapid.IntRange(2, 20).Draw(t, "nops")
+	// size class (rare): tables of 8..20 MiB of incompressible data each, so that a level-0
+	// compaction reads and writes tens of MiB
+	bulk := rapid.IntRange(0, 399).Draw(t, "bulk") == 0
+	if bulk {
+		c.Bulk = true
+		c.Block = rapid.SampledFrom([]int{4096, 1 << 20}).Draw(t, "bulkBlock")
+		if len(c.Keys) > 3 {
+			c.Keys = c.Keys[:3] // every (key, ts) is looked up after every step: keep that affordable
+		}
+		if len(c.Absent) > 1 {
+			c.Absent = c.Absent[:1]
+		}
+		nops = rapid.IntRange(3, 7).Draw(t, "bulkNops")
+	}
 	for i := 0; i < nops; i++ {
 		kinds := []string{"flush", "flush", "flush"}
 		if nflush > 0 {
@@ -100,6 +172,31 @@ func genLvCase(t *rapid.T, withCompaction bool) lvCase {
 			}
 			if rapid.IntRange(0, 2).Draw(t, "straddle") != 0 && nflush > 0 {
 				lo = hi + 1 // usually a batch starts above the previous one, sometimes it shares its first timestamp
+			}
+			if bulk {
+				if nflush >= 4 {
+					continue
+				}
+				cnt := rapid.IntRange(8, 20).Draw(t, "bulkN")
+				k0 := rapid.IntRange(0, len(c.Keys)-1).Draw(t, "bulkK0")
+				for j := 0; j < cnt; j++ {
+					e := vlib.E{Key: c.Keys[(k0+j)%len(c.Keys)], Ts: lo + uint64(j)}
+					if used[vlib.VKey(string(e.Key), e.Ts)] {
+						continue
+					}
+					used[vlib.VKey(string(e.Key), e.Ts)] = true
+					e.Val = vlib.Str(fmt.Sprintf("\x02bulk:%d:v%d.%d", 1<<20, i, j))
+					o.Batch = append(o.Batch, e)
+					if e.Ts > hi {
+						hi = e.Ts
+					}
+				}
+				if len(o.Batch) == 0 {
+					continue
+				}
+				nflush++
+				c.Ops = append(c.Ops, o)
+				continue
 			}
 			span := rapid.IntRange(0, 5).Draw(t, "span")
 			n := rapid.IntRange(1, 12).Draw(t, "n")
@@ -161,7 +258,7 @@ func eqSem(e types.Entry, ok bool, r vlib.E, rok bool) bool {
 	if gf != rf {
 		return false
 	}
-	return !gf || bytes.Equal(e.Value, []byte(r.Val))
+	return !gf || canonVal(e.Value) == string(r.Val)
 }
 
 func eqExact(e types.Entry, ok bool, r vlib.E, rok bool) bool {
@@ -171,7 +268,7 @@ func eqExact(e types.Entry, ok bool, r vlib.E, rok bool) bool {
 	if !ok {
 		return true
 	}
-	return e.Key == r.VK() && e.Tombstone == r.Tomb && bytes.Equal(e.Value, []byte(r.Val)) && e.Version == int64(r.Ts)
+	return e.Key == r.VK() && e.Tombstone == r.Tomb && canonVal(e.Value) == string(r.Val) && e.Version == int64(r.Ts)
 }
 
 func physical(v *originium.VerifLevels) ([]vlib.E, []originium.VerifTable) {
@@ -180,7 +277,7 @@ func physical(v *originium.VerifLevels) ([]vlib.E, []originium.VerifTable) {
 	for _, t := range tabs {
 		for _, e := range t.Entries {
 			k, ts := vlib.SplitV(e.Key)
-			out = append(out, vlib.E{Key: vlib.Str(k), Ts: ts, Val: vlib.Str(e.Value), Tomb: e.Tombstone})
+			out = append(out, vlib.E{Key: vlib.Str(k), Ts: ts, Val: vlib.Str(canonVal(e.Value)), Tomb: e.Tombstone})
 		}
 	}
 	return out, tabs
@@ -200,6 +297,9 @@ func (r *lvResult) class(c string) { r.classes[c] = true }
 // compaction/recovery, anchored on the reference over everything flushed.
 func runLv(c lvCase, dir string, mode string) (res lvResult) {
 	res.classes = map[string]bool{}
+	if c.Bulk {
+		res.class("tables_of_many_MiB")
+	}
 	_ = os.RemoveAll(dir)
 	if err := os.MkdirAll(dir, 0o755); err != nil {
 		res.kind, res.msg = "harness", err.Error()
@@ -280,7 +380,7 @@ func runLv(c lvCase, dir string, mode string) (res lvResult) {
 				if !eqExact(e, ok, r, rok) {
 					res.kind = "C10"
 					res.msg = fmt.Sprintf("step %d (%s): Lookup(%q, ts=%d) = (%q val=%q tomb=%v, found=%v); brute force over the %d tables' entries = (%q val=%q tomb=%v, found=%v)",
-						step, what, string(k), ts, e.Key, e.Value, e.Tombstone, ok, len(tabs), r.VK(), string(r.Val), r.Tomb, rok)
+						step, what, string(k), ts, e.Key, canonVal(e.Value), e.Tombstone, ok, len(tabs), r.VK(), string(r.Val), r.Tomb, rok)
 					return false
 				}
 				if rok {
@@ -325,7 +425,7 @@ func runLv(c lvCase, dir string, mode string) (res lvResult) {
 				res.kind, res.msg = "C10", fmt.Sprintf("step %d: flush failed: %v", step, err)
 				return
 			}
-			st.flushed = append(st.flushed, batch...)
+			st.flushed = append(st.flushed, canonBatch(batch)...)
 			if o.Op == "flush" {
 				st.batches = append(st.batches, batch)
 			}
@@ -406,7 +506,7 @@ func runLv(c lvCase, dir string, mode string) (res lvResult) {
 					if rightBefore && !rightAfter {
 						res.kind = "C09"
 						res.msg = fmt.Sprintf("step %d (%s, watermark %d): Lookup(%q, ts=%d) was (%q val=%q tomb=%v found=%v) and is now (%q val=%q tomb=%v found=%v); reference over everything flushed: (%q val=%q tomb=%v found=%v)",
-							step, o.Op, st.wm, k, ts, b.e.Key, b.e.Value, b.e.Tombstone, b.ok, a.e.Key, a.e.Value, a.e.Tombstone, a.ok, r.VK(), string(r.Val), r.Tomb, rok)
+							step, o.Op, st.wm, k, ts, b.e.Key, canonVal(b.e.Value), b.e.Tombstone, b.ok, a.e.Key, canonVal(a.e.Value), a.e.Tombstone, a.ok, r.VK(), string(r.Val), r.Tomb, rok)
 						return
 					}
 					if !rightBefore {
@@ -596,7 +696,7 @@ func TestC10Twin(t *testing.T) {
 	})
 }
 func TestC09(t *testing.T)       { lvTest(t, "C09", "TestC09", "C09", true) }
-func TestC16Levels(t *testing.T) { lvTest(t, "C16", "TestC16Levels", "C10", false) }
+func TestC16Levels(t *testing.T) { lvTest(t, "C16", "TestC16Levels", "C10", true) }
 
 // ---- C10(b): exhaustive small universe -------------------------------------
 //
@@ -609,7 +709,13 @@ func TestC16Levels(t *testing.T) { lvTest(t, "C16", "TestC16Levels", "C10", fals
 var exhKeys = []string{"a", "a!", "a@1"}
 var exhQueryKeys = []string{"A", "a", "a ", "a!", "a#", "a@", "a@1", "a@1@", "b"}
 
-const exhLayouts = 4096 * 5 * 2 * 2
+const exhLayouts = 4096 * 5 * 2 * 2 * 2
+
+// the four versions of a layout: consecutive small ones, or ones whose decimal texts are
+// prefixes of each other ("1" of "10" and "12"), so that a versioned key can be a proper
+// prefix of its neighbour in a block
+var exhVersions = [2][4]uint64{{1, 2, 3, 4}, {1, 2, 10, 12}}
+var exhQueryTs = [2][]uint64{{0, 1, 2, 3, 4, 5}, {0, 1, 2, 3, 9, 10, 11, 12, 13}}
 
 type exhCase struct {
 	Layout  int  `json:"layout"`
@@ -617,6 +723,7 @@ type exhCase struct {
 	Split   int  `json:"split_after_version"`
 	Block   int  `json:"block"`
 	Recover bool `json:"recover"`
+	VerSet  int  `json:"version_set"`
 }
 
 func exhDecode(l int) exhCase {
@@ -628,6 +735,8 @@ func exhDecode(l int) exhCase {
 	c.Block = []int{1, 4096}[l%2]
 	l /= 2
 	c.Recover = l%2 == 1
+	l /= 2
+	c.VerSet = l % 2
 	return c
 }
 
@@ -650,7 +759,7 @@ func runExh(c exhCase, dir string) (msg string, nontrivial bool) {
 			if c.Mask&(1<<(ki*4+ver-1)) == 0 {
 				continue
 			}
-			e := vlib.E{Key: vlib.Str(k), Ts: uint64(ver), Val: vlib.Str(fmt.Sprintf("%s.%d", k, ver)), Tomb: (ki+ver)%3 == 0}
+			e := vlib.E{Key: vlib.Str(k), Ts: exhVersions[c.VerSet][ver-1], Val: vlib.Str(fmt.Sprintf("%s.%d", k, ver)), Tomb: (ki+ver)%3 == 0}
 			if e.Tomb {
 				e.Val = ""
 			}
@@ -675,7 +784,7 @@ func runExh(c exhCase, dir string) (msg string, nontrivial bool) {
 		v, _ = v.Recover()
 	}
 	for _, k := range exhQueryKeys {
-		for ts := uint64(0); ts <= 5; ts++ {
+		for _, ts := range exhQueryTs[c.VerSet] {
 			e, ok := v.Lookup(k, ts)
 			r, rok := vlib.Best(all, k, ts)
 			if !eqExact(e, ok, r, rok) {
